@@ -393,7 +393,10 @@ def allocator_success_edge(db, cx, rule):
             if not c or c.get("op") not in (">", ">=", "<", "<="):
                 continue
             refs = set(c.get("lrefs", []) + c.get("rrefs", []))
-            if "F:" + C + "StackAllocatorData::storage" in refs and f.r["params"][0]["n"] in refs \
+            cap_calls = set(c.get("lcalls", []) + c.get("rcalls", []))
+            # the bound is the size of the storage, read directly or through capacity()
+            bound = "F:" + C + "StackAllocatorData::storage" in refs or C + "StackAllocator::capacity" in cap_calls
+            if bound and f.r["params"][0]["n"] in refs \
                     and "+" in (c.get("l", "") + c.get("r", "")):
                 brs.append(bid)
         if not brs:
